@@ -285,6 +285,111 @@ def _run(ck, m):
         ck.ob('C13.d', short(b.id), 'branch-order', okd,
               'next_version tests %s in this order' % names if okd else 'next_version tests %s (expected keep-marker, resolving, stored-in-conflict, unversioned)' % names,
               '%s:%s' % (b.file, b.line))
+        # the whole table: what each branch returns, as a symbolic expression over (self.version, old.version)
+        def sym(op_, depth=0):
+            out = set()
+            for r in origins(b, op_, stop_at_calls=True):
+                if r[0] == 'param':
+                    flds = tuple(q[2] for q in r[-1] if q[0] == 'f')
+                    out.add(('self' if r[1] == 1 else 'old') + '.' + '.'.join(flds))
+                elif r[0] == 'call' and depth < 4:
+                    tc = b.term(r[1])
+                    leaf = callee_decl(tc).split('::')[-1]
+                    if leaf in ('saturating_add', 'checked_add', 'wrapping_add') and tc['args']:
+                        out |= {'add(%s)' % x for x in sym(tc['args'][0], depth + 1)}
+                    else:
+                        out.add('call:' + leaf)
+                elif r[0] == 'arith':
+                    rv = b.blocks[r[1]]['s'][r[2]]['r']
+                    if rv.get('op', '').startswith('Add'):
+                        out |= {'add(%s)' % x for x in sym(rv['a'], depth + 1)}
+                    else:
+                        out.add('arith')
+                elif r[0] == 'const':
+                    out.add('const')
+                else:
+                    out.add(r[0])
+            return out
+
+        def returns_in(region):
+            res = set()
+            for (dbi, dsi, kind, pl) in b.defs().get(0, []):
+                if dbi in region and kind == 'assign' and pl['k'] == 'use':
+                    res |= sym(pl['o'])
+                elif dbi in region and kind == 'call':
+                    tc = b.term(dbi)
+                    leaf = callee_decl(tc).split('::')[-1]
+                    if leaf in ('saturating_add', 'checked_add', 'wrapping_add'):
+                        res |= {'add(%s)' % x for x in sym(tc['args'][0])}
+                    else:
+                        res.add('call:' + leaf)
+            return res
+        table = {}
+        by_name = {}
+        for (tbi, n_, w_) in tests:
+            by_name.setdefault('%s(%s)' % (n_, w_), []).append(tbi)
+
+        def edge_regions(tbi):
+            for (s2, tt, ft) in bool_switches(b, tbi) if b.term(tbi)['k'] == 'call' else bool_switches(b, local=[s_['l']['l'] for s_ in b.blocks[tbi]['s']
+                    if s_['k'] == 'assign' and s_['r']['k'] == 'bin' and s_['r']['op'] == 'Eq'][-1]):
+                yield ({x for x in b.reachable() if b.dominates(tt, x) and not b.dominates(ft, x)},
+                       {x for x in b.reachable() if b.dominates(ft, x) and not b.dominates(tt, x)})
+        want = None
+        try:
+            keep = by_name['keep_in_conflict_resolution(self)'][0]
+            resv = by_name['resolving_conflict(self)'][0]
+            oldc = by_name['is_in_conflict_resolution(old)']
+            unv = by_name['version==-1(self)'][0]
+            (k_t, k_f), = list(edge_regions(keep))[:1]
+            (r_t, r_f), = list(edge_regions(resv))[:1]
+            inner = [x for x in oldc if x in r_t]
+            outer = [x for x in oldc if x in r_f]
+            (i_t, i_f), = list(edge_regions(inner[0]))[:1]
+            (o_t, o_f), = list(edge_regions(outer[0]))[:1]
+            (u_t, u_f), = list(edge_regions(unv))[:1]
+            def selected_in(region):
+                # the version chosen on a branch and incremented after the branches join
+                res = set()
+                for x in region:
+                    for s_ in b.blocks[x]['s']:
+                        if s_['k'] == 'assign' and s_['r']['k'] == 'use' and not s_['l'].get('p') and b.locals[s_['l']['l']] == 'i32':
+                            res |= {y for y in sym(s_['r']['o']) if y.endswith('.version')}
+                return res
+            joined = returns_in(r_t)
+
+            def resolving(region):
+                direct = returns_in(region)
+                if direct:
+                    return direct
+                return {'add(%s)' % y for y in selected_in(region)} & joined
+            table = {
+                'marker kept': returns_in(k_t - r_t - r_f) or returns_in(k_t),
+                'resolving, stored in conflict': resolving(i_t),
+                'resolving, stored not in conflict': resolving(i_f),
+                'stored in conflict': returns_in(o_t - u_t - u_f) or returns_in(o_t),
+                'unversioned': returns_in(u_t),
+                'versioned': returns_in(u_f),
+            }
+            want = {
+                'marker kept': {'self.version'},
+                'resolving, stored in conflict': {'add(self.version)'},
+                'resolving, stored not in conflict': {'add(old.version)'},
+                'stored in conflict': {'old.version'},
+                'unversioned': {'add(old.version)'},
+                'versioned': {'add(self.version)'},
+            }
+        except (KeyError, IndexError, ValueError):
+            table = None
+        if table is None:
+            ck.ob('C13.d', short(b.id), 'return-table', False,
+                  'the resolving branch of next_version no longer distinguishes "stored entry in conflict resolution" from "not in conflict": a '
+                  'resolution answered twice (two arbiters, or a reconnecting one) builds on the version of the notice instead of the stored one — '
+                  'the store refuses it and the key keeps the other answer while the record says resolved', '%s:%s' % (b.file, b.line))
+        else:
+            diff = {k_: sorted(v_) for k_, v_ in table.items() if v_ != want[k_]}
+            ck.ob('C13.d', short(b.id), 'return-table', not diff,
+                  'next_version returns, per branch: ' + '; '.join('%s -> %s' % (k_, sorted(v_)) for k_, v_ in table.items()) if not diff else
+                  'next_version return table differs: %s (expected %s)' % (diff, {k_: sorted(want[k_]) for k_ in diff}), '%s:%s' % (b.file, b.line))
         # what the first branch returns
         okr = False
         if tests:
